@@ -363,13 +363,76 @@ def check(R, tier):
     finally:
         I.models[:] = saved
     site_obligations(R, I)
+    site_replay(R, I)
     finalize(R)
+
+def site_replay(R, I):
+    """counterexamples of the call-site obligations have no scenario of their own: look for a witness on the composed one-cycle relation
+    (a successful cycle in which an accepted document, or an adopted root, was NOT verified as the property demands) and run it natively"""
+    site_cx = [c for c in R.counterexamples if c['group'].startswith('site/')]
+    if not site_cx: return
+    from histreplay import clean_constraints, decode_history, agree, reference_root_walk
+    from history import build_summaries
+    import props.C03 as C03
+    sums = build_summaries(I, hops=2)
+    shipped, cyc, f = C03.build_history(sums, 1, 'w'); c = cyc[0]
+    bad = [('timestamp', z3.Not(V(c.root, c.ts))), ('snapshot', z3.Not(V(c.root, c.sn))), ('targets', z3.Not(V(c.root, c.tg)))]
+    cur = shipped
+    for i, h in enumerate(c.hops):
+        on = z3.Or([c.root == x for x in c.hops[i:]])
+        bad.append((f'root hop {i + 1}', z3.And(on, z3.Not(z3.And(V(cur, h), V(h, h))))))
+        cur = z3.If(on, h, cur)
+    bad.append(('shipped root', z3.Not(V(shipped, shipped))))
+    reproduced = False
+    for what, b in bad:
+        r, sv = R._solve(f + clean_constraints(cyc, shipped) + [c.ok, b, z3.Distinct([shipped] + list(c.hops))])
+        if r != z3.sat: continue
+        sc, pred = decode_history(sv.model(), cyc, shipped)
+        real = R.replay('history', sc)
+        rc = real['cycles'][0]
+        adopted = rc.get('versions', {}).get('root')
+        if what.startswith('root hop') and rc['ok'] and adopted == sc['roots'][sc['cycles'][0].get('shipped', 0)]['version']:
+            R.notes.append(f'site witness for {what}: the native run did not adopt the hop'); continue
+        if rc['ok'] and not agree(pred, real):
+            R.report_violation(f'an update cycle succeeds although the {what} document does not meet the signature threshold of the root it has to be verified under '
+                               f'(trusted root version {rc["versions"].get("root")}; requests {[x[0] for x in rc["requests"]]})', sc)
+            reproduced = True; break
+        R.notes.append(f'site witness for {what} did not reproduce: predicted {pred}, real {real["cycles"]}')
+    if not reproduced:
+        reproduced = root_hop_menu(R)
+    for cx in site_cx: cx['site_replayed'] = reproduced
+
+def root_hop_menu(R):
+    """directed native scenarios for the root-update sites: root 1 (root keys [A,B], threshold 1, signed by A) and a root 2 whose key list /
+    threshold / signers vary; the reference says: adopt iff root 2 meets root 1's threshold under root 1's keys AND its own threshold under its own keys"""
+    A, B, C = 0, 1, 2
+    def root(ver, rkeys, thr, signers, table):
+        return {'id': ver, 'version': ver, 'consistent': False, 'table': table, 'roles': {'root': {'keys': rkeys, 'thr': thr}, 'timestamp': {'keys': [3], 'thr': 1}, 'snapshot': {'keys': [4], 'thr': 1}, 'targets': {'keys': [5], 'thr': 1}}, 'signers': signers}
+    menu = [('same keys, threshold raised to 2, signed by one key', [A, B], 2, [A]), ('same keys, threshold raised to 2, signed by both', [A, B], 2, [A, B]),
+            ('rotated to [C], signed by the old key only', [C], 1, [A]), ('rotated to [C], signed by the new key only', [C], 1, [C]), ('rotated to [C], signed by old and new', [C], 1, [A, C]),
+            ('keys [A,C] threshold 2, signed by A and C', [A, C], 2, [A, C]), ('keys [A,C] threshold 2, signed by A only', [A, C], 2, [A]), ('same keys and threshold, signed by B', [A, B], 1, [B])]
+    found = False
+    for what, rkeys, thr, signers in menu:
+        r1 = root(1, [A, B], 1, [A], [A, B, 3, 4, 5]); r2 = root(2, rkeys, thr, signers, sorted(set(rkeys) | {3, 4, 5}))
+        old_ok = len(set(signers) & {A, B}) >= 1; new_ok = len(set(signers) & set(rkeys)) >= thr
+        sc = {'nkeys': 6, 'roots': [r1, r2], 'cycles': [{'shipped': 0, 'serve_roots': {'2': 1}, 'consistent': False, 'safe': False, 'timestamp': {'id': 10, 'version': 1, 'signers': [3]},
+                                                           'snapshot': {'id': 11, 'version': 1, 'signers': [4]}, 'targets': {'id': 12, 'version': 1, 'signers': [5]}, 'ts_meta': {'version': 1}, 'sn_meta': {'version': 1}}]}
+        real = R.replay('history', sc); rc = real['cycles'][0]
+        R.differential['scenarios'] += 1
+        adopted = rc.get('ok') and rc.get('versions', {}).get('root') == 2
+        if adopted and not (old_ok and new_ok):
+            R.report_violation(f'root update adopts version 2 ({what}) although it ' + ('does not meet the old root\'s threshold' if not old_ok else 'does not meet its own threshold under its own keys'), sc); found = True; break
+        if not adopted and old_ok and new_ok and not rc.get('ok'):
+            R.report_violation(f'root update refuses a correctly double-signed version 2 ({what}): {rc.get("msg")}', sc); found = True; break
+        R.differential['agree'] += 1
+    return found
 
 def finalize(R):
     """replay solver counterexamples natively; report what reproduces"""
     seen = set()
     for cx in R.counterexamples:
         sc = cx.get('scenario')
+        if cx.get('site_replayed'): continue
         if not sc or sc.get('kind') != 'verify_role':
             R.inconclusive.append(f'counterexample for "{cx["obligation"]}" has no replayable scenario'); continue
         key = (sc['which'], cx['group'])
